@@ -610,6 +610,17 @@ func WithAfterPublish(hook PublishHook) Option {
 // WithBeforePublishContext sets a context-aware hook that's called before publishing events
 func WithBeforePublishContext(hook PublishHookContext) Option {
 	return func(bus *EventBus) {
+		if bus.store != nil {
+			// WithStore was applied first and keeps persistence in this slot:
+			// run the hook, then keep persisting.
+			bus.beforePublishCtx = func(ctx context.Context, eventType reflect.Type, event any) {
+				if hook != nil {
+					hook(ctx, eventType, event)
+				}
+				bus.persistEvent(ctx, eventType, event)
+			}
+			return
+		}
 		bus.beforePublishCtx = hook
 	}
 }
